@@ -31,6 +31,8 @@ theorem p2ok_leaf (t : Tok) (rest : List Tok) (h : (∃ n, t = .id n) ∨ (∃ l
 theorem rt_lit (n : Lit) (hwf : LitOk n = true) : RT W (.lit n) := by
   intro k term rest out hgt hle hk htf hno hsafe hfin
   rw [toks_lit n hwf]
+  have hl0 : (XExpr.lit n).lvl = 0 := by simp [XExpr.lvl, litOk_not_negative n hwf]
+  rw [hl0] at hle hfin
   have hp : Parses W 0 term ([.lit n] ++ rest) (.lit n, rest) :=
     ⟨1, fun f hf => by obtain ⟨f', rfl, _⟩ := succ_of_pos hf; simp [xparseLvl]⟩
   exact finish_nonloop W hp (Or.inl rfl) (Nat.zero_le _) (fun _ => p2ok_leaf W _ _ (Or.inr ⟨n, rfl⟩)) hno hfin
@@ -112,25 +114,51 @@ theorem rt_mem (o : XExpr) (n : String) (hwf : WF W o) (iho : RT W o) : RT W (.m
   intro k term rest out hgt hle hk htf hno hsafe hfin
   have hlvl : (XExpr.mem o n).lvl = 1 := rfl
   rw [hlvl] at hle hfin
-  rw [toks_mem] at hsafe ⊢
-  simp only [List.append_assoc, List.cons_append, List.nil_append] at hsafe ⊢
+  have hP2 : P2Ok W (toks (fmtBodyX (.mem o n)) ++ rest) := by
+    obtain ⟨t, ts', h1, _, h3⟩ := head_fmt W (.mem o n) hwf topPrec topSide (Or.inl (by decide))
+    have h1' : toks (fmtBodyX (.mem o n)) = t :: ts' := h1
+    rw [h1']
+    exact h3 (Or.inr (by simp [XExpr.lvl])) rest
+  rw [toks_mem] at hsafe hP2 ⊢
+  simp only [List.append_assoc, List.cons_append, List.nil_append] at hsafe hP2 ⊢
   have hpo : PosOk precMember memObjectSide := Or.inr ⟨rfl, Or.inl rfl⟩
-  refine finish_loop W (lv := 1) ?_ (by decide) hle ?_ hno hfin
-  · intro out' hc
+  refine finish_loop W (lv := 1) ?_ (by decide) hle (fun _ => hP2) hno hfin
+  intro out' hc
+  have hfin' : ∀ lv, Fin W o lv 1 term (.p .Period :: .id n :: rest) out' := by
+    intro lv
+    apply fin_of_conts W _ _ _ _ _ _ (by decide)
+    obtain ⟨N, h⟩ := hc
+    refine ⟨N + 1, fun f hf => ?_⟩
+    obtain ⟨f', rfl, hf'⟩ := succ_of_pos hf
+    unfold xcont
+    simp [h f' hf']
+  cases hmp : memObjParenX o with
+  | false =>
+    rw [hmp, wrap_false] at hsafe
+    rw [wrap_false]
     apply rts W iho _ _ 1 term (.p .Period :: .id n :: rest) out' (by omega)
     · exact fun hp => ⟨pos_postfixLike o _ (Or.inl rfl) hp, fun h => by have := pos_postfixLike o _ (Or.inl rfl) hp; omega,
         fun ht => gtSub (by have := hgt ht; simpa [gtFree] using this) hp⟩
     · exact fun hp => parenDead W o hwf (needParen_prec hpo hp) _
     · exact safe_child hsafe (fun h => by simpa [hasLt] using h) (List.suffix_refl _)
     · exact fun i h1 h2 => by omega
-    · apply fin_of_conts W _ _ _ _ _ _ (by decide)
-      obtain ⟨N, h⟩ := hc
-      refine ⟨N + 1, fun f hf => ?_⟩
-      obtain ⟨f', rfl, hf'⟩ := succ_of_pos hf
-      unfold xcont
-      simp [h f' hf']
-  · intro _
-    exact p2ok_object W o hwf _ _ hpo (pos_postfixLike o _ (Or.inl rfl)) _
+    · exact hfin' _
+  | true =>
+    -- `(1).m`: the object is an integer literal, printed in parentheses of its own
+    cases o with
+    | lit l =>
+      have hl : LitOk l = true := hwf
+      have hnp : needParen (XExpr.lit l).prec precMember memObjectSide = false := by
+        simp only [XExpr.prec, litPrec_of_ok l hl]; decide
+      rw [toks_wrap_true, fmtSubX_eq, hnp, wrap_false]
+      have h0 := parses_paren W iho term (.p .Period :: .id n :: rest) (fun h => by simp [hasLt] at h)
+      simp only [List.cons_append, List.append_assoc, List.nil_append] at h0 ⊢
+      have hcd : CastDead W (toks (fmtBodyX (.lit l)) ++ .p .RightParen :: .p .Period :: .id n :: rest) := by
+        rw [toks_lit l hl]
+        exact castDead_of_B W [.lit l] _ (by simp [castDeadB, modBeforeStep])
+      exact finish_nonloop W h0 (Or.inl rfl) (Nat.zero_le _) (fun _ => p2ok_paren W _ _ hcd)
+        (fun i h1 h2 => by omega) (hfin' 0)
+    | _ => simp [memObjParenX] at hmp
 
 theorem rt_sub (o i : XExpr) (hwo : WF W o) (hwi : WF W i) (iho : RT W o) (ihi : RT W i) : RT W (.sub o i) := by
   intro k term rest out hgt hle hk htf hno hsafe hfin
